@@ -50,11 +50,14 @@ def solve_points(n, edges, rng, tries=60):
     return None
 
 
+WITH_H = [False]
+
+
 def chain_at(sg_target, away_from, chain, start, rng, icode=""):
     """ALA-CYS-ALA moved rigidly: SG at sg_target, the body of the chain pointing away from `away_from`"""
     # (with insertion codes the pieces carry no OXT, so that pdb2pqr keeps them in one chain under one identifier)
     at = gen.peptide(["ALA", "CYS", "ALA"], chain=chain, start=start, icodes={0: icode, 1: icode, 2: icode} if icode else None,
-                     oxt=not icode)
+                     oxt=not icode, hydrogens=WITH_H[0])
     sg = next(a["xyz"] for a in at if a["name"] == "SG" and a["res_index"] == 1)
     cen = sum(a["xyz"] for a in at) / len(at)
     v_from = cen - sg
@@ -203,7 +206,9 @@ def run(ctx):
             orders.append(o)
         for oi, order in enumerate(orders):
             same = (gi + oi) % 3 == 0
+            WITH_H[0] = (gi + oi) % 4 == 2          # a quarter of the inputs carry their hydrogens (HG on every cysteine)
             text = build(pts, order, same, rng, icodes=(gi + oi) % 5 == 1)
+            WITH_H[0] = False
             extra = [[], ["--nodebump"], ["--noopt"], ["--nodebump", "--noopt"], ["--drop-water"]][(gi + 2 * oi) % 5]
             deco = ["plain", "ssbond-subset", "cym", "ssbond-all", "ssbond-subset+cym", "ssbond-relabelled"][(gi + 3 * oi + ctx.seed) % 6]
             ff = ffs[(gi + oi) % 6]
